@@ -1,7 +1,7 @@
 // replay for property=C18 harness=random::verif_random::c18_rnd_dispatch module=verif_random crate=abasic-core src=src/random.rs
 // failing check: "c18: positive argument advances exactly once"
 // native dev: panicked; release: not run (playback supports the dev profile only)
-// panicked at /tmp/verif-abasic-ruje2xbm/abasic-core/verif_h/verif_random.rs:66:9: | c18: positive argument advances exactly once
+// panicked at /tmp/verif-abasic-7g_4sr6r/abasic-core/verif_h/verif_random.rs:66:9: | c18: positive argument advances exactly once
 /// Test generated for harness `random::verif_random::c18_rnd_dispatch` 
 ///
 /// Check for `assertion`: ""c18: positive argument advances exactly once""
